@@ -494,6 +494,13 @@ def law_model(cx, schemas, hists, rl):
             cx.count(("lawmodel", h.s.name, tuple(h.steps), h.opts, vi), True, "lawmodel:validation")
             sh = fb.get("sh%d" % vi, "------")
             keyless, twin, incase, lost, excl, exact = (c == "1" for c in sh[:6])
+            fresh, toponly, unchanged = (c == "1" for c in (sh[6:9] if len(sh) >= 9 else "---"))
+            # which PROVED theorem of Props/C07Valdiff.lean speaks about this input (hypotheses evaluated by the model)
+            thm = "valdiff_exact_unchanged" if unchanged else ("valdiff_exact_partial_fresh" if fresh and toponly else None)
+            cx.dist["valdiff-proved:" + (thm or ("none(" + ("not-fresh" if not fresh else "changes-below-top-level") + ")"))] += 1
+            if thm and not exact:
+                cx.fail(COMP, "model: the statement of the proved theorem %s evaluates to false on an input inside its hypotheses" % thm,
+                        payload(h, "valdiff-model", vi, more=["model-law", thm]))
             cx.dist["valdiff-hyp:" + ("excluded(" + "+".join(n for n, c in (("keyless-change", keyless), ("np-twin", twin), ("np-in-case", incase)) if c) + ")" if excl else "satisfied")] += 1
             cx.dist["valdiff-model:" + ("exact" if exact else "NOT-exact") + ("/excluded" if excl else "/hyp")] += 1
             if not excl and not exact:
